@@ -131,6 +131,9 @@ def check(repo: Repo, rep, tier):
     ci_detect(repo, rep)
     xdist_worker(repo, rep)
     approval_complete(repo, rep)
+    from .C19 import fresh_state
+
+    fresh_state(repo, rep)
     stale_bindings(repo, rep, {"config", "_current"}, "e.g. a copied state/config object keeps the flags of import time, so approval decisions are taken on stale data")
 
 
